@@ -121,6 +121,7 @@ fn main() {
         "codec" => {
             let mut out = Vec::new();
             misc_exec::run_codec(arg(&args, "--seed").unwrap_or("1").parse().unwrap(), arg(&args, "--count").unwrap_or("1200").parse().unwrap(), &mut out);
+            misc_exec::run_messages(arg(&args, "--seed").unwrap_or("1").parse().unwrap(), &mut out);
             write_ndjson(arg(&args, "--out").expect("--out"), &out);
         }
         #[cfg(not(feature = "stateless"))]
